@@ -118,16 +118,38 @@ func genCase(t *rapid.T) Case {
 	case gen.YMap:
 		kinds = []string{"replace_scalar", "replace_tree", "delete", "create_key", "multi"}
 	case gen.YSeq:
-		kinds = []string{"replace_scalar", "replace_tree", "delete", "append", "multi"}
+		kinds = []string{"replace_scalar", "replace_tree", "delete", "append", "multi", "delete_nothing", "delete_nothing", "read_missing"}
+	}
+	if x.n.K == gen.YMap {
+		kinds = append(kinds, "delete_nothing")
 	}
 	c.Kind = rapid.SampledFrom(kinds).Draw(t, "kind")
 	switch c.Kind {
 	case "replace_scalar":
 		c.Update = p + " = " + val
 	case "replace_tree":
-		c.Update = p + ` = {"m": 1, "l": [1, 2]}`
+		op := rapid.SampledFrom([]string{" = ", " = ", " |= "}).Draw(t, "treeop")
+		c.Update = p + op + `{"m": 1, "l": [1, 2]}`
 		if rapid.Bool().Draw(t, "seqtree") {
-			c.Update = p + ` = ["x", {"y": 2}]`
+			c.Update = p + op + `["x", {"y": 2}]`
+		}
+	case "delete_nothing":
+		// the selection is empty: nothing may change, in particular the container is not padded up to the index
+		if x.n.K == gen.YSeq {
+			n := x.n.Len()
+			c.Update = fmt.Sprintf("del(%s[%d])", p, n+rapid.IntRange(1, 4).Draw(t, "beyond"))
+			if rapid.Bool().Draw(t, "two") {
+				c.Update = fmt.Sprintf("del(%s[%d], %s[%d])", p, n+2, p, n+5)
+			}
+		} else {
+			c.Update = "del(" + p + `.["zz_missing"])`
+		}
+	case "read_missing":
+		// reading past the end on the right-hand side: the only change is the new key
+		c.Update = fmt.Sprintf(`.["zz_new"] = %s[%d]`, p, x.n.Len()+rapid.IntRange(1, 4).Draw(t, "beyond"))
+		if d.Root.K != gen.YMap {
+			c.Kind = "delete_nothing"
+			c.Update = fmt.Sprintf("del(%s[%d])", p, x.n.Len()+2)
 		}
 	case "delete":
 		c.Update = "del(" + p + ")"
@@ -375,6 +397,22 @@ func check(c Case) hx.Verdict {
 	}
 	if upd.Err != "" {
 		return hx.Unspec("update_errors")
+	}
+	switch c.Kind {
+	case "delete_nothing":
+		if upd.Out != base.Out {
+			return hx.Bad("", "an update that selects nothing changed the output:\nupdate: %s\n--- yq .\n%s\n--- yq u\n%s", c.Update, base.Out, upd.Out)
+		}
+		return hx.OK(true, c.Text+"\x00"+c.Update, "kind:"+c.Kind)
+	case "read_missing":
+		want := hx.Run(`.["zz_new"] = null`, c.Text, hx.Opts{Unwrap: &unwrap})
+		if want.Err != "" || want.Crashed() {
+			return hx.Unspec("update_errors")
+		}
+		if upd.Out != want.Out {
+			return hx.Bad("", "reading an index past the end on the right-hand side changed more than the assigned key:\nupdate: %s\n--- expected (.zz_new = null)\n%s\n--- yq u\n%s", c.Update, want.Out, upd.Out)
+		}
+		return hx.OK(true, c.Text+"\x00"+c.Update, "kind:"+c.Kind)
 	}
 	bt, _, err1 := tableOf(base.Out)
 	if err1 != nil {
